@@ -101,6 +101,10 @@ def build(t):
         return lp.Place(items, rep(t[2]), t[3])
     if k == 'tuple':
         return lp.Ptuple([B(x) for x in t[1]], rep(t[2]))
+    if k == 'pseed':
+        rp = t[2]
+        cls = {'prand': lp.Prand, 'pxrand': lp.Pxrand, 'pshuffle': lp.Pshuffle}[rp[0]]
+        return fp.Pseed(t[1], cls([B(x) for x in rp[1]], rep(rp[2])))
     if k == 'switch':
         return lp.Pswitch([B(x) for x in t[1]], B(t[2]))
     if k == 'switch1':
@@ -167,7 +171,9 @@ def build(t):
         from sc3.seq import pattern as ptt
         f = {'clip': bi.clip, 'wrap': bi.wrap}[t[1]]
         if isinstance(a, ptt.Pattern):
-            return getattr(a, t[1])(lo, hi)
+            m = getattr(a, t[1])
+            # (Pslide instances carry a bool attribute `wrap` that hides the operator method)
+            return m(lo, hi) if callable(m) else f(a, lo, hi)
         return ptt.Pnarop(f, a, lo, hi)
     raise ValueError(t)
 
